@@ -175,3 +175,41 @@ Definition runR (tol : Qc) (cs : list kaseR) : list (nat * list nat) :=
   run_all QcF absR gtR (fun a => a) (fun a => a) vclose (fun a => Qc_eq_bool a 0%Qc) tol cs.
 Definition runC (tol : Qc) (cs : list kaseC) : list (nat * list nat) :=
   run_all GF absG gtG (fun a => (a, 0%Qc)) fst gvclose gisz tol cs.
+
+(* ================= OMP / MP diagnostics (C10) =================
+   One ocase = one (dictionary, y, parameters, numpy seed) with three drives
+   of the real solver: functional omp() with a callback, class OMP.solve()
+   with a Callbacks object, and a manual setup/step drive.  All vectors are
+   FULL model vectors (coefficients scattered onto the columns selected so
+   far).  Codes:
+    20  counts: returned iteration count, number of callback invocations,
+        len(cost)-1, solver.iiter, the class API's count, the Callbacks
+        begin/end counts and the number of manual steps are not all equal
+    21  cost_k^2 is not ||y - A x_k||^2 of the k-th callback iterate (exact)
+    22  callback k did not receive the iterate of the manual drive after
+        step k, or the returned x is not the last iterate
+    23  cost increases (only when oc_mono)
+    24  more iterations than niter_outer, or malformed case *)
+Section ChkOmp.
+Variable F : FieldS.
+Variable re : F -> Qc.
+Variable vcl : Qc -> list F -> list F -> bool.
+Notation vec := (list F).
+Record ocase := { oc_id : nat; oc_n : nat; oc_A : list (list F); oc_y : vec; oc_niter : nat; oc_mono : bool;
+  oc_x : vec; oc_nout : nat; oc_cost : list Qc; oc_cbs : list vec;
+  oc_iiter : nat; oc_nout_cls : nat; oc_nbeg : nat; oc_nend : nat; oc_manual : list vec }.
+Definition chk_omp (tol : Qc) (c : ocase) : list nat :=
+  let xs := zeros F (oc_n c) :: oc_cbs c in
+  let k := oc_nout c in
+  code (Nat.eqb (length (oc_cbs c)) k && Nat.eqb (length (oc_cost c)) (S k) && Nat.eqb (oc_iiter c) k &&
+        Nat.eqb (oc_nout_cls c) k && Nat.eqb (oc_nbeg c) k && Nat.eqb (oc_nend c) k && Nat.eqb (length (oc_manual c)) k) 20 ++
+  code (all2 (close tol) (map sq (oc_cost c)) (map (fun x => re (lsres2 F (oc_A c) (oc_y c) x)) xs)) 21 ++
+  code (all2 (vcl tol) (oc_cbs c) (oc_manual c) && vcl tol (oc_x c) (last xs [])) 22 ++
+  (if oc_mono c then code (nonincr (tol / qz 100)%Qc (oc_cost c)) 23 else []) ++
+  code (Nat.leb k (oc_niter c) && wfMb (oc_n c) (length (oc_y c)) (oc_A c) &&
+        forallb (fun v => Nat.eqb (length v) (oc_n c)) (oc_x c :: oc_cbs c)) 24.
+End ChkOmp.
+Definition ocaseR := ocase QcF.
+Definition ocaseC := ocase GF.
+Definition runOmpR (tol : Qc) (cs : list ocaseR) := failing (oc_id QcF) (chk_omp QcF (fun a => a) vclose tol) cs.
+Definition runOmpC (tol : Qc) (cs : list ocaseC) := failing (oc_id GF) (chk_omp GF fst gvclose tol) cs.
